@@ -168,8 +168,25 @@ def install():
     m(CFG, "substitute", PROP, pre_subst, post_subst)
 
 
+def many_variables_case(rng, n=160):
+    """S -> V_i ; V_i -> t_(i mod 2) W_i ; W_i -> t : more than 128 variables in one operand"""
+    prods = []
+    for i in range(1, n, 2):
+        prods.append([0, [["V", i]]])
+        prods.append([i, [["T", i % 3 % 2], ["V", i + 1]]])
+        prods.append([i + 1, [["T", (i // 2) % 2]]])
+    return {"nv": n + 1, "nt": 2, "start": 0, "prods": prods, "vc": "int"}
+
+
 def plan(tier, rng, sl, nslices, stats):
     cfg = TIERS[tier]
+    if sl == 0:
+        # scale cases (one worker): eight nested closures of two tiny grammars; an operand with 160 variables
+        yield {"a": {"nv": 1, "nt": 2, "start": 0, "prods": [[0, [["T", 0]]]], "vc": "str"},
+               "b": {"nv": 1, "nt": 2, "start": 0, "prods": [[0, [["T", 1]]]], "vc": "str"}, "deep": 8}
+        yield {"a": many_variables_case(rng), "b": {"nv": 1, "nt": 2, "start": 0, "prods": [[0, [["T", 1]]]], "vc": "str"}}
+        yield {"a": {"nv": 2, "nt": 2, "start": 0, "prods": [[0, [["T", 0], ["V", 1]]], [1, [["T", 1]]]], "vc": "str"},
+               "b": many_variables_case(rng)}
     for i in range(cfg["random"]):
         a = gcfg.random_case(rng, max_vars=3, max_terms=2, max_prods=5, max_body=3)
         r = rng.random()
@@ -246,4 +263,15 @@ def run_case(c, stats):
         for t in list(s1.terminals)[:2]:
             call(s1.substitute, {t: B})
             call(s1.substitute, {t: A})
+    if c.get("deep"):
+        # eight nested closures on each operand (fresh names grow by one suffix per level), then the two are combined
+        ra_, rb_ = A, B
+        for _ in range(c["deep"]):
+            ok1, ra_ = call(ra_.get_closure)
+            ok2, rb_ = call(rb_.get_closure)
+            if not (ok1 and ok2):
+                break
+        else:
+            call(ra_.concatenate, rb_)
+            call(ra_.union, rb_)
     return nt
